@@ -191,3 +191,6 @@ Fixpoint polar_fill (fuel : nat) (M : positive) (count : nat) (rs : list Z)
            bind (polar_fill fuel M c (snd xsr)) (fun lr =>
            Ok (fst xsr :: fst lr, snd lr)))
   end.
+
+(* defines/random.hpp uniform_random(), shipped variant:  std::rand() / ((double)RAND_MAX + 1)  with M = RAND_MAX + 1 *)
+Definition uniform_of_rand (M : positive) (r : Z) : Q := r # M.
